@@ -168,6 +168,7 @@ Definition latest_height (cs : client_state) : height :=
 Definition validate_tm (chain_id : bytes) (tl_num tl_den : N) (trusting unbonding drift : Z) (latest : height) (nspecs : N) : outcome unit :=
   if blank chain_id then Err
   else if ((tl_num * 3) mod two64 <? tl_den) || (tl_den <? tl_num) || (tl_den =? 0) then Err
+  else if (two63 - 1 <? tl_num) || (two63 - 1 <? tl_den) then Err       (* fields above MaxInt64 (d656e11) *)
   else if (trusting =? 0)%Z then Err
   else if (unbonding =? 0)%Z then Err
   else if (drift =? 0)%Z then Err
@@ -348,8 +349,7 @@ Fixpoint delete_all_signer (suffixes : list bytes) : outcome (list height) :=
       end
   end.
 
-(** The repaired parser (patch /var/tmp/fixes/C15/bsc-recent-signer-key.diff): an error unless the key
-    splits into exactly two parts. *)
+(** The repaired parser (0d61436, parseRecentSignerKey): an error unless the key splits into exactly two parts. *)
 Fixpoint delete_all_signer_strict (suffixes : list bytes) : outcome (list height) :=
   match suffixes with
   | [] => Ok []
@@ -367,7 +367,7 @@ Fixpoint delete_all_signer_strict (suffixes : list bytes) : outcome (list height
 (** * Initialize / UpgradeState / Status *)
 Section Clients.
   Variable now : N.   (* uint64(ctx.BlockTime().Unix()) *)
-  Variable strict : bool.   (* recent-signer keys parsed by the repaired parser (false at /repo HEAD) *)
+  Variable strict : bool.   (* recent-signer keys parsed with the length check (0d61436); false = the pinned parser *)
 
   (** bsc ecrecover + the coinbase comparison.  [old]: the chain id goes through
       big.NewInt(int64(ChainId)); rlp refuses a negative big.Int and encodeSigHeader panics. *)
